@@ -18,7 +18,7 @@ import (
 // lookups, interleaved with VisitStoredFields (pooled visit contexts).
 
 type ReuseOp struct {
-	Kind       int      `json:"kind"` // 0 postings, 1 dictionary iterator steps, 2 doc values, 3 stored
+	Kind       int      `json:"kind"` // 0 postings, 1 dictionary iterator steps, 2 doc values, 3 stored, 4 walk an EARLIER postings list again
 	Seg        int      `json:"seg"`
 	Field      int      `json:"field,omitempty"`
 	Term       int      `json:"term,omitempty"`
@@ -46,7 +46,7 @@ func init() {
 }
 
 func genReuseCase(t *rapid.T, prop string) *Case {
-	o := WorldOpts{MinBuilds: 1, MaxBuilds: 3, MaxMerges: 2, BigPct: 4, HugePct: 40, MaxTinyDocs: 10, FewTerms: rapid.IntRange(0, 1).Draw(t, "fewterms") == 0, MoreDV: true}
+	o := WorldOpts{MinBuilds: 1, MaxBuilds: 3, MaxMerges: 2, BigPct: 7, HugePct: 60, MaxTinyDocs: 10, FewTerms: rapid.IntRange(0, 1).Draw(t, "fewterms") == 0, MoreDV: true}
 	if rapid.IntRange(0, 2).Draw(t, "swarm-nolocs") == 0 {
 		o.NoLocs = true
 	}
@@ -55,7 +55,7 @@ func genReuseCase(t *rapid.T, prop string) *Case {
 	n := rapid.IntRange(2, 30).Draw(t, "nops")
 	for i := 0; i < n; i++ {
 		op := ReuseOp{
-			Kind: rapid.SampledFrom([]int{0, 0, 0, 0, 0, 1, 1, 2, 2, 3}).Draw(t, "kind"),
+			Kind: rapid.SampledFrom([]int{0, 0, 0, 0, 0, 1, 1, 2, 2, 3, 4, 4}).Draw(t, "kind"),
 			Seg:  rapid.IntRange(0, 5).Draw(t, "seg"),
 		}
 		switch op.Kind {
@@ -80,8 +80,16 @@ func genReuseCase(t *rapid.T, prop string) *Case {
 			op.Field = rapid.IntRange(0, 7).Draw(t, "field")
 			op.Take = rapid.IntRange(1, 4).Draw(t, "take")
 			op.Restart = rapid.IntRange(0, 4).Draw(t, "restart") == 0
+		case 4:
+			op.PrePL = rapid.IntRange(1, 8).Draw(t, "which")
+			op.PreIt = rapid.IntRange(0, 8).Draw(t, "preit")
+			op.Flags = rapid.IntRange(0, 7).Draw(t, "flags")
 		default:
-			op.Doc = rapid.IntRange(0, 2200).Draw(t, "doc")
+			if rapid.IntRange(0, 1).Draw(t, "edge") == 0 {
+				op.Doc = rapid.SampledFrom([]int{0, 5, 127, 128, 1000, 1023, 1024, 1025, 1500, 2047, 2048, 2049, 3071, 3072}).Draw(t, "edgedoc")
+			} else {
+				op.Doc = rapid.IntRange(0, 2200).Draw(t, "doc")
+			}
 		}
 		rc.Ops = append(rc.Ops, op)
 	}
@@ -110,6 +118,11 @@ func runReuseCase(c *Case, env *Env) *Result {
 	res.Shape = worldShape(w)
 	var pls []segment.PostingsList
 	var its []segment.PostingsIterator
+	// what each postings list object currently stands for (the latest lookup
+	// that returned it): it must keep answering that, whatever else was
+	// looked up or reused since
+	plWant := map[segment.PostingsList][]model.PostObs{}
+	plDesc := map[segment.PostingsList]string{}
 	plInfo := []string{}
 	dicts := map[dictKey]segment.Dictionary{}
 	dictIts := map[dictKey]*openDictIter{}
@@ -206,6 +219,8 @@ func runReuseCase(c *Case, env *Env) *Result {
 				}
 				pls = append(pls, pl)
 				its = append(its, it)
+				plWant[pl] = want
+				plDesc[pl] = fmt.Sprintf("%s:%q of seg %d (looked up by op #%d)", field, string(term), ws.Idx, oi)
 				plInfo = append(plInfo, fmt.Sprintf("#%d(%s,seg%d)", len(pls)-1, kind, ws.Idx))
 				steps := len(want) + 1
 				if op.Take > 0 && op.Take < steps {
@@ -293,6 +308,62 @@ func runReuseCase(c *Case, env *Env) *Result {
 						return
 					}
 					odi.pos++
+				}
+			case 4:
+				if len(pls) == 0 {
+					return
+				}
+				pl := pls[(op.PrePL-1)%len(pls)]
+				want := plWant[pl]
+				var preIt segment.PostingsIterator
+				if op.PreIt > 0 && len(its) > 0 {
+					preIt = its[(op.PreIt-1)%len(its)]
+				}
+				where = fmt.Sprintf("op #%d: walking the earlier postings list %s again, flags %03b", oi, plDesc[pl], op.Flags)
+				res.probe("earlier-postings-list-walked-again")
+				res.NonTrivial = true
+				if got := pl.Count(); got != uint64(len(want)) {
+					f = mismatch("C13", "reuse", "count", fmt.Sprintf("%s: Count()=%d want %d", where, got, len(want)))
+					return
+				}
+				wf, wn, wl := op.Flags&1 != 0, op.Flags&2 != 0, op.Flags&4 != 0
+				it, err := pl.Iterator(wf, wn, wl, preIt)
+				if err != nil {
+					f = apiFail("C13", "reuse", "PostingsList.Iterator", nil, err)
+					return
+				}
+				its = append(its, it)
+				for s := 0; s <= len(want); s++ {
+					p, err := it.Next()
+					if err != nil {
+						f = apiFail("C13", "reuse", "PostingsIterator.Next", nil, err)
+						return
+					}
+					if s == len(want) {
+						if p != nil {
+							f = mismatch("C13", "reuse", "postings", fmt.Sprintf("%s: unexpected posting doc %d after the end (want %d postings)", where, p.Number(), len(want)))
+						}
+						return
+					}
+					if p == nil {
+						f = mismatch("C13", "reuse", "postings", fmt.Sprintf("%s: posting #%d missing (want doc %d of %d postings)", where, s, want[s].Doc, len(want)))
+						return
+					}
+					got := ReadPosting(p, wf, wn, wl)
+					w2 := want[s]
+					if !wf {
+						w2.Freq = 0
+					}
+					if !wn {
+						w2.Norm = 0
+					}
+					if !wl {
+						w2.Locs = nil
+					}
+					if d := model.DiffPost(&got, &w2); d != "" {
+						f = mismatch("C13", "reuse", "postings", fmt.Sprintf("%s: posting #%d %s", where, s, d))
+						return
+					}
 				}
 			case 2:
 				if cnt == 0 {
